@@ -17,7 +17,7 @@ def run(ctx):
                         "TLC evaluates C01_* after every decision of every recorded real cycle and at every cycle start"]
     st_clustermodel.run_stage(ctx, PREFIXES, thorough=not ctx.quick)
     n = 600 if ctx.quick else 8000
-    plan = [("mixed", n // 3), ("slots", n // 8), ("fraction", n // 8), ("full", n // 8), ("bindfail", n // 6), ("overhead", n // 6)]
+    plan = [("mixed", n // 3), ("slots", n // 8), ("fraction", n // 8), ("full", n // 8), ("bindfail", n // 6), ("overhead", n // 6), ("ext", n // 5)]
     st_cluster.run_stage(ctx, PREFIXES, plan)
     if not ctx.quick:
         st_fixtures.run_stage(ctx, PREFIXES)
